@@ -207,6 +207,13 @@ func candidates(r *fw.Rand, key string, def interface{}) []cand {
 			cs = append(cs, cand{v, kind, zero})
 		}
 	}
+	if strings.HasSuffix(key, "_per_level") {
+		// lists of numbers whose default is null
+		add("number-list", false, []interface{}{1, 1.5, 2}, []interface{}{2}, []interface{}{1, 2, 3, 4})
+		add("number-list-zero", true, []interface{}{}, nil)
+		add("number-list-malformed", true, []interface{}{"a"}, "x")
+		return cs
+	}
 	switch t := def.(type) {
 	case bool:
 		add("bool", false, true, false)
@@ -668,6 +675,42 @@ func envValue(v interface{}) (string, bool) {
 }
 
 func envCase(c *fw.Ctx, s *section, r *fw.Rand, doc map[string]interface{}, ls []leaf, base loaded) {
+	// with no variable set, applying the environment changes nothing - whatever the file said
+	for n := 0; n < 12; n++ {
+		l := ls[r.Intn(len(ls))]
+		cs := candidates(r, l.path[len(l.path)-1], l.val)
+		cd := cs[r.Intn(len(cs))]
+		d := clone(doc)
+		setPath(d, l.path, cd.v)
+		raw, _ := json.Marshal(d)
+		func() {
+			defer func() {
+				if rec := recover(); rec != nil {
+					c.Violation("C15/"+s.name+"/env-panic@"+site(debug.Stack()), fmt.Sprintf("ApplyEnvVars panicked with an empty environment: %v", rec), nil)
+				}
+			}()
+			cfg := s.newCfg()
+			cfg.SetBaseDir(c.Dir)
+			if err := cfg.LoadJSON(raw); err != nil {
+				return
+			}
+			t1, err1 := cfg.ToJSON()
+			if err1 != nil {
+				return
+			}
+			if err := cfg.ApplyEnvVars(); err != nil {
+				c.Eval(fmt.Sprintf("env-empty/%s/%s/refused", s.name, pathStr(l.path)))
+				return
+			}
+			t2, err2 := cfg.ToJSON()
+			c.Eval(fmt.Sprintf("env-empty/%s/%s/%s", s.name, pathStr(l.path), cd.kind))
+			if err2 != nil || string(t1) != string(t2) {
+				c.Violation("C15/"+s.name+"/empty-environment-changed-the-configuration/"+pathStr(l.path),
+					"load, ApplyEnvVars with no variable set, save: the saved configuration differs from the one saved before the environment step",
+					map[string]interface{}{"before": json.RawMessage(t1), "after": json.RawMessage(t2), "error": fmt.Sprint(err2)})
+			}
+		}()
+	}
 	for n := 0; n < 25; n++ {
 		l := ls[r.Intn(len(ls))]
 		cs := candidates(r, l.path[len(l.path)-1], l.val)
